@@ -183,6 +183,9 @@ func checkC02(c *Ctx) {
 		perLayout = 400
 	}
 	for _, t := range listTemplates {
+		if t.NotC02 {
+			continue
+		}
 		opts := enumChunks(t, false)
 		var assigns [][]chunk
 		for _, o := range opts { // the same decoration on every chunk
